@@ -1229,8 +1229,29 @@ func c10Judge(rd *c10Round, agg *c10Agg) {
 			cs["send"] = s
 			e.R.Distinct(fmt.Sprintf("peer_not_found|%s|%s", s.Target, phaseKind(s.Phase)))
 			if routable(rc.Sess, nf.To, s.T0, nf.T) {
+				var books []map[string]any
+				for _, c := range conns {
+					if c.Sess == rc.Sess && c.PeerID == nf.To {
+						books = append(books, map[string]any{"conn": c.Idx, "how": c.How, "dial_ok": c.DialOK, "dial_start_ns": c.DialStart, "joined_ns": c.JoinedAt,
+							"replaced_ns": c.ReplacedAt, "close_start_ns": c.CloseStart, "read_end_ns": c.ws.ReadEndAt(), "zombie": c.Zombie.Load()})
+					}
+				}
+				var lines []string
+				for _, l := range strings.Split(rd.srv.LogText(), "\n") {
+					if strings.Contains(l, "peer_id="+nf.To+" ") || strings.HasSuffix(l, "peer_id="+nf.To) || strings.Contains(l, "panic") {
+						lines = append(lines, l)
+					}
+				}
+				var evs []c10Event
+				for _, ev := range rd.events {
+					if ev.Sess == rc.Sess {
+						evs = append(evs, ev)
+					}
+				}
 				e.R.Violate("notfound:for-connected-peer:"+phaseKind(s.Phase),
-					fmt.Sprintf("peer_not_found for %q although a connection with that id was registered in the session before the send started and stayed until the error arrived", nf.To), cs, nil)
+					fmt.Sprintf("peer_not_found for %q although a connection with that id was registered in the session before the send started and stayed until the error arrived", nf.To), cs,
+					map[string]any{"connections_with_that_id": books, "server_output_lines": lines, "session_events": evs, "phases": rd.phases,
+						"all_sends_to_that_id_by_author": sendsTo[nf.To], "errors_about_that_id_before": k})
 				continue
 			}
 			local.errorsOK++
